@@ -24,7 +24,7 @@
   contract is exactly that reading (append vectors / extend every vector / re-index every vector).
   The order in which Python iterates the set of missing IDs is not fixed by the language; the
   model uses the common order restricted to the missing IDs, and `padSort_missing_order`
-  (Props) shows that any other order gives the same operand after the re-indexing.
+  (Lemmas) shows that any other order gives the same operand after the re-indexing.
 -/
 import BiomModel.Codec
 open Lean
